@@ -1,13 +1,13 @@
 CONSTANTS
   MaxTasks = 5
   MaxSend = 2
-  WithOnConnect = TRUE
-  HandlerCloses = FALSE
-  WithCloser = FALSE
+  WithOnConnect = FALSE
+  HandlerCloses = TRUE
+  WithCloser = TRUE
   Dev_NoConnRecheck = FALSE
   Dev_NoInputRecheck = FALSE
   Dev_HupLockTwice = FALSE
   Dev_NoHupTask = FALSE
 SPECIFICATION Spec
-INVARIANTS DisconnectBeforeClose
+INVARIANTS TypeOK
 CHECK_DEADLOCK FALSE
